@@ -280,6 +280,22 @@ func c05module(c *core.Ctx, rng *core.Rng, mi int) {
 		if l.kind == "pattern" {
 			// the effective pattern list is read back from the compiled type (C02 owns how it is derived)
 			pats := def.Type().Patterns()
+			// ... but whether a pattern is inverted is what the module text says for it, not what the compiled
+			// object says today: every pattern in effect must be one this leaf's chain wrote, with its modifier
+			written := map[[2]string]bool{}
+			for _, w := range l.pats {
+				written[w] = true
+			}
+			for _, p := range pats {
+				inv := ""
+				if p.Inverted() {
+					inv = "invert"
+				}
+				if !written[[2]string{p.Pattern, inv}] {
+					c.Violation(core.Replay{Kind: "property-failure", Class: "pattern-modifier", Summary: fmt.Sprintf("leaf %s: pattern %q is in effect with invert-match=%v, which no type statement of its chain says (written: %v)", l.name, p.Pattern, p.Inverted(), l.pats),
+						Input: map[string]interface{}{"module": y.String(), "leaf": l.name}})
+				}
+			}
 			for _, s := range []string{"", "a", "ab", "b", "abc", "12", "xyy", "trouble", "no trouble here", "ccc", "zzz"} {
 				bits := "-"
 				if len(pats) > 0 {
